@@ -4,7 +4,10 @@ import Isotp.Process
 
   Part A: pure `Limiter` bookkeeping (`expire`, `addToLast`, `update`, `inform`, `reset`).
   Part B: the abstract limiter run (steps `update` / `emit`) and the window bound.
-  Part C: how `processTx` / `txLoop` / `processLoop` use the limiter.
+  Part C: the limiter inside `processTx` (`startTx = dispatch ∘ buildTx`, `transmitCf`,
+          decomposition `processTx_eq`, one-pass specification `PassSpec`).
+  Part D: `rxLoop`, `txLoop`, `processLoop` and whole sessions as limiter runs (`LoopSpec`, `Session`).
+  Part E: progress and delay-only lemmas.
 -/
 namespace Isotp.C15
 open Isotp State
@@ -94,8 +97,8 @@ theorem addToLast_ne_nil (now bits : Nat) (sl : List (Nat × Nat)) :
     Limiter.addToLast now bits sl ≠ [] := by
   fun_induction Limiter.addToLast now bits sl <;> simp
 
-/-- every slot start after `addToLast` is an old slot start, or it is `now` and lies more than
-    5 ms after every old slot start bounded by `k` … (stated for a lower bound `k`). -/
+/-- a strict lower bound `k` of all slot starts of a non-empty gapped slot list is still a lower
+    bound after `addToLast` (a new slot starts later than the last old one) -/
 theorem addToLast_starts (now bits : Nat) (sl : List (Nat × Nat)) (k : Nat)
     (hk : ∀ e ∈ sl, k < e.1) (hg : Gapped sl) (hne : sl ≠ []) :
     ∀ e ∈ Limiter.addToLast now bits sl, k < e.1 := by
